@@ -1591,9 +1591,9 @@ func vRunControl(c *vCase) {
 		}
 		if i == endAt && !k.selfEnded {
 			if !k.flood && !k.archiving && vChance(r, 0.5) {
-				// a raw-data request that is still collecting when the source ends (2^27 samples are never reached)
+				// a raw-data request that is still collecting when the source ends (2^22 samples per channel, 40 s of data, are never reached; the request costs 25 MB)
 				var s string
-				if err, ret := k.do("StoreRawDataBlock(2^27) [still collecting when the source ends]", "any", func() error { return k.sc.StoreRawDataBlock(1<<27, &s) }); ret && err == nil {
+				if err, ret := k.do("StoreRawDataBlock(2^22) [still collecting when the source ends]", "any", func() error { return k.sc.StoreRawDataBlock(1<<22, &s) }); ret && err == nil {
 					k.archiving, pendingAtEnd = true, true
 					defer os.Remove(strings.Replace(s, ".npz", "_inprogress.npz", 1))
 				}
@@ -1692,8 +1692,13 @@ func vRunControl(c *vCase) {
 	if !k.dead {
 		c.Nontrivial()
 	} else if k.self != nil {
-		// do not leave the producer running
-		go k.self.Stop()
+		// do not leave the producer running (its blocks would be counted by the next case's monitor): wait for it, bounded
+		stopped := make(chan struct{})
+		go func() { k.self.Stop(); close(stopped) }()
+		select {
+		case <-stopped:
+		case <-time.After(5 * time.Second):
+		}
 	}
 	if c.Idx < 8 {
 		c.Describe("requests and expected reply classes: %v", k.hist) // shows up as a sample in the evidence file
